@@ -4,7 +4,16 @@ STRVALS = {"pkg": "./pkg/strvals", "files": ["pkg/strvals/h_c04_set.go"]}
 
 STORAGE = {"pkg": "./pkg/storage", "files": ["pkg/storage/h_common.go", "pkg/storage/h_c10_mem.go", "pkg/storage/h_c01_prune.go"]}
 
+LOADER = {"pkg": "./pkg/chart/v2/loader", "files": ["pkg/chart/v2/loader/h_c16_names.go"]}
+
 CHECKS = {
+    "C16": {
+        "runs": [dict(LOADER, entries=["H16Names", "H16Size"], bounds_quick={"namelen": 6, "maxsize": 40, "entries": 2}, bounds_thorough={"namelen": 8, "maxsize": 40, "entries": 3},
+                      optional_sites=["size/requested-within-remaining-budget"]),
+                 dict(pkg="./pkg/plugin/installer", files=["pkg/plugin/installer/h_c16_cleanjoin.go"], entries=["H16CleanJoin"],
+                      bounds_quick={"destlen": 5}, bounds_thorough={"destlen": 7})],
+        "bounds": {}, "assumptions": [],
+    },
     # engine self-test (setup_cmd): a harness with a deliberately false assertion must yield a
     # solver counterexample that reproduces natively; sampled paths must agree with native runs
     "SELFTEST": {
